@@ -67,3 +67,12 @@ Example aba_example_rollback :
   (true, true, [], Some [], Some 0%N, 2%N, CStale, [], 2%N, []).
 Proof. vm_compute. reflexivity. Qed.
 Print Assumptions aba_example_rollback.
+
+(* across handles: the change set was prepared on a handle that has been closed since (the directory
+   was reopened): refused and without effect on the new handle, whatever its state *)
+Theorem C12_cross_handle_refused : forall st id busy,
+  commit (reopen st) id busy = (reopen st, CUnknown) /\
+  cur (reopen st) = cur st /\ hist (reopen st) = hist st /\ seqn (reopen st) = seqn st /\
+  max_len (reopen st) = max_len st.
+Proof. exact Store_proofs.cross_handle_refused. Qed.
+Print Assumptions C12_cross_handle_refused.
